@@ -3,172 +3,124 @@ package extract
 import (
 	"fmt"
 	"go/ast"
-	"go/token"
-	"os"
-	"path/filepath"
 	"sort"
-	"strconv"
-	"strings"
 )
 
-// Controller: the FSM table of indexer/controller — the names of the states
-// (state.go String()), the stateToStateFunc map, and for every state function
-// the set of states it returns together with a nil error and the set it
-// returns together with a non-nil error.
+// Controller: the FSM table of indexer/controller — the names of the states,
+// the stateToStateFunc map, and for every state function the set of states it
+// returns together with a nil error and the set it returns together with a
+// non-nil error.
+//
+// design/EXTRACT.md (round 2):
+//
+//	stateConsts        read tolerantly: the constants of type State, wherever the block is, folded (rxPkg.IotaSeq)
+//	stateNames         EVALUATED: State(i).String() for i = 0, 1, … (probe rxprobe/controller)
+//	stateToStateFunc   EVALUATED: the map the run loop dispatches on (hook StateFuncsForVerif), functions by
+//	                   their runtime name; rows in State order
+//	returns            read tolerantly: the return statements of each state function, found anywhere in the
+//	                   package; the returned state may be a State constant, a folded constant expression or
+//	                   single-assignment local, or the whole return may be delegated to a helper
+//	                   `return helper(…)` of the package whose own returns are then taken (three levels)
 func init() {
 	Register(Gen{Name: "Controller", Run: func(repo string) (string, error) {
 		dir := "indexer/controller"
-		_, sf, err := ParseFile(repo, dir+"/state.go")
+		p, err := rxLoadPkg(repo, dir)
 		if err != nil {
 			return "", err
 		}
-		// const block: State = iota ...
-		var consts []string
-		for _, d := range sf.Decls {
-			gd, ok := d.(*ast.GenDecl)
-			if !ok || gd.Tok != token.CONST {
-				continue
-			}
-			isState := false
-			for i, sp := range gd.Specs {
-				vs := sp.(*ast.ValueSpec)
-				if i == 0 {
-					if id, ok := vs.Type.(*ast.Ident); ok && id.Name == "State" && len(vs.Values) == 1 {
-						if v, ok := vs.Values[0].(*ast.Ident); ok && v.Name == "iota" {
-							isState = true
-						}
-					}
-				}
-				if isState {
-					for _, n := range vs.Names {
-						consts = append(consts, n.Name)
-					}
-				}
-			}
+		consts, err := p.IotaSeq("State")
+		if err != nil {
+			return "", err
 		}
-		if len(consts) == 0 {
-			return "", fmt.Errorf("state.go: const block `X State = iota` not found")
+		var ans struct {
+			Names []string `json:"names"`
+			Table []struct {
+				State int    `json:"state"`
+				Fn    string `json:"fn"`
+			} `json:"table"`
 		}
-		// names array in String()
-		var names []string
-		fd := FuncDecl(sf, "State", "String")
-		if fd == nil {
-			return "", fmt.Errorf("state.go: func (State) String not found")
+		if err := rxProbe(repo, "controller", map[string]any{}, &ans); err != nil {
+			return "", err
 		}
-		ast.Inspect(fd.Body, func(n ast.Node) bool {
-			cl, ok := n.(*ast.CompositeLit)
-			if !ok || names != nil {
-				return true
-			}
-			for _, e := range cl.Elts {
-				bl, ok := e.(*ast.BasicLit)
-				if !ok || bl.Kind != token.STRING {
-					names = nil
-					return true
-				}
-				s, _ := strconv.Unquote(bl.Value)
-				names = append(names, s)
-			}
-			return true
-		})
-		if len(names) != len(consts) {
-			return "", fmt.Errorf("state.go: %d state constants but %d names in String()", len(consts), len(names))
+		names := ans.Names
+		if len(ans.Table) == 0 {
+			return "", fmt.Errorf("controller probe: stateToStateFunc is empty")
 		}
-		// stateToStateFunc
 		var table [][2]string
-		for _, d := range sf.Decls {
-			gd, ok := d.(*ast.GenDecl)
-			if !ok || gd.Tok != token.VAR {
-				continue
+		for _, r := range ans.Table {
+			if r.State < 0 || r.State >= len(consts) {
+				return "", fmt.Errorf("stateToStateFunc has key %d, which is no State constant", r.State)
 			}
-			for _, sp := range gd.Specs {
-				vs := sp.(*ast.ValueSpec)
-				for i, n := range vs.Names {
-					if n.Name != "stateToStateFunc" || i >= len(vs.Values) {
-						continue
-					}
-					cl, ok := vs.Values[i].(*ast.CompositeLit)
-					if !ok {
-						return "", fmt.Errorf("stateToStateFunc is not a composite literal")
-					}
-					for _, e := range cl.Elts {
-						kv, ok := e.(*ast.KeyValueExpr)
-						if !ok {
-							return "", fmt.Errorf("stateToStateFunc: element is not key: value")
-						}
-						k, ok1 := kv.Key.(*ast.Ident)
-						v, ok2 := kv.Value.(*ast.Ident)
-						if !ok1 || !ok2 {
-							return "", fmt.Errorf("stateToStateFunc: key or value is not an identifier")
-						}
-						table = append(table, [2]string{k.Name, v.Name})
-					}
-				}
-			}
+			table = append(table, [2]string{consts[r.State], r.Fn})
 		}
-		if len(table) == 0 {
-			return "", fmt.Errorf("state.go: stateToStateFunc not found")
-		}
-		// state functions: (state, error == nil?) pairs of their return statements
-		files, _ := filepath.Glob(filepath.Join(repo, dir, "*.go"))
-		decls := map[string]*ast.FuncDecl{}
-		for _, f := range files {
-			if strings.HasSuffix(f, "_test.go") {
-				continue
-			}
-			rel, _ := filepath.Rel(repo, f)
-			if _, err := os.Stat(f); err != nil {
-				continue
-			}
-			_, af, err := ParseFile(repo, rel)
-			if err != nil {
-				return "", err
-			}
-			for _, d := range af.Decls {
-				if fd, ok := d.(*ast.FuncDecl); ok && fd.Recv == nil {
-					decls[fd.Name.Name] = fd
-				}
-			}
-		}
+
 		isState := map[string]bool{}
 		for _, c := range consts {
 			isState[c] = true
 		}
 		type rets struct{ ok, err []string }
 		returns := map[string]*rets{}
-		for _, kv := range table {
-			fd := decls[kv[1]]
-			if fd == nil || fd.Body == nil {
-				return "", fmt.Errorf("state function %s not found", kv[1])
+		var collect func(fd *ast.FuncDecl, r *rets, depth int) error
+		collect = func(fd *ast.FuncDecl, r *rets, depth int) error {
+			sc := p.ScopeOf(fd)
+			stateOf := func(e ast.Expr) (string, bool) {
+				if id, ok := e.(*ast.Ident); ok && isState[id.Name] {
+					if _, shadowed := sc.local[id.Name]; !shadowed {
+						return id.Name, true
+					}
+				}
+				if n, ok := sc.Int(e); ok && n >= 0 && int(n) < len(consts) {
+					return consts[n], true
+				}
+				return "", false
 			}
-			r := &rets{}
 			var bad error
-			var walk func(n ast.Node) bool
-			walk = func(n ast.Node) bool {
+			ast.Inspect(fd.Body, func(n ast.Node) bool {
+				if bad != nil {
+					return false
+				}
 				switch x := n.(type) {
 				case *ast.FuncLit:
 					return false // closures return to their own caller
 				case *ast.ReturnStmt:
+					if len(x.Results) == 1 {
+						// the whole answer delegated to a helper of the package
+						if call, ok := x.Results[0].(*ast.CallExpr); ok && depth < 3 {
+							if callee := p.rxCallee(call); callee != nil && callee != fd && rxReturnsStateErr(callee) {
+								if err := collect(callee, r, depth+1); err != nil {
+									bad = err
+								}
+								return false
+							}
+						}
+					}
 					if len(x.Results) != 2 {
-						bad = fmt.Errorf("%s: return with %d results", kv[1], len(x.Results))
+						bad = fmt.Errorf("%s: return with %d results", fd.Name.Name, len(x.Results))
 						return false
 					}
-					st, ok := x.Results[0].(*ast.Ident)
-					if !ok || !isState[st.Name] {
-						bad = fmt.Errorf("%s: returned state is not a State constant", kv[1])
+					st, ok := stateOf(x.Results[0])
+					if !ok {
+						bad = fmt.Errorf("%s: returned state is not a State constant", fd.Name.Name)
 						return false
 					}
 					if id, ok := x.Results[1].(*ast.Ident); ok && id.Name == "nil" {
-						r.ok = appendUnique(r.ok, st.Name)
+						r.ok = appendUnique(r.ok, st)
 					} else {
-						r.err = appendUnique(r.err, st.Name)
+						r.err = appendUnique(r.err, st)
 					}
 				}
 				return true
+			})
+			return bad
+		}
+		for _, kv := range table {
+			fd := p.Func("", kv[1])
+			if fd == nil {
+				return "", fmt.Errorf("state function %s not found", kv[1])
 			}
-			ast.Inspect(fd.Body, walk)
-			if bad != nil {
-				return "", bad
+			r := &rets{}
+			if err := collect(fd, r, 0); err != nil {
+				return "", err
 			}
 			sort.Strings(r.ok)
 			sort.Strings(r.err)
@@ -201,6 +153,29 @@ func init() {
 		out += "]\n"
 		return out + Footer("Controller"), nil
 	}})
+}
+
+// rxReturnsStateErr: does fd declare the results (State, error)?
+func rxReturnsStateErr(fd *ast.FuncDecl) bool {
+	if fd.Type.Results == nil {
+		return false
+	}
+	var ts []ast.Expr
+	for _, f := range fd.Type.Results.List {
+		n := len(f.Names)
+		if n == 0 {
+			n = 1
+		}
+		for i := 0; i < n; i++ {
+			ts = append(ts, f.Type)
+		}
+	}
+	if len(ts) != 2 {
+		return false
+	}
+	a, ok1 := ts[0].(*ast.Ident)
+	b, ok2 := ts[1].(*ast.Ident)
+	return ok1 && ok2 && a.Name == "State" && b.Name == "error"
 }
 
 func appendUnique(xs []string, x string) []string {
